@@ -1,6 +1,7 @@
 """Executor for C18: a real SvsInst attached to a v2 NDNApp on the virtual-time loop.
 
-One Scenario = one instance. Stimuli (macro-steps, each followed by quiescence at the same
+One Scenario = one instance (two Scenarios can share one process, loop, application and face: host /
+guest, see Scenario.__init__). Stimuli (macro-steps, each followed by quiescence at the same
 virtual instant) are exactly the events of spec/Svs.tla:
 
   recv(p, j, r)  (r = number of new_data() calls the application makes inside on_missing_data)
@@ -50,123 +51,144 @@ NODE_NAMES = {
 }
 
 
-def node_name(n):
-    return [bytes(c) for c in NODE_NAMES[n]]
+class World:
+    """One sync group as seen by one instance: the group prefix and the real names of the abstract nodes."""
+
+    def __init__(self, group, names):
+        self.group = group
+        self.base = enc.Name.normalize(group)
+        self.names = {n: [bytes(c) for c in v] for n, v in names.items()}
+        self.by_bytes = {bytes(enc.Name.to_bytes(v)): n for n, v in self.names.items()}
+        self.wires = {}
+
+    def node_name(self, n):
+        return list(self.names[n])
+
+    def node_of(self, name_or_bytes):
+        """spec node id of a real node name (FormalName or its TLV bytes); '?<hex>' for a foreign one"""
+        b = bytes(name_or_bytes) if isinstance(name_or_bytes, (bytes, bytearray, memoryview)) \
+            else bytes(enc.Name.to_bytes(name_or_bytes))
+        return self.by_bytes.get(b, '?' + b.hex())
+
+    def encode_sv_component(self, entries):
+        """entries: list of (id|NOID|ROOTID, seq|NOSEQ) -> name component bytes (TLV 0xc9)."""
+        w = StateVecWrapper()
+        w.val = StateVec()
+        w.val.entries = []
+        for nid, seq in entries:
+            e = StateVecEntry()
+            if nid == ROOTID:
+                e.node_id = []
+            elif nid != NOID:
+                e.node_id = self.node_name(nid)
+            if seq != NOSEQ:
+                e.seq_no = seq
+            w.val.entries.append(e)
+        return bytes(w.encode())
+
+    def sync_interest(self, p):
+        """Wire of a signed sync Interest for spec packet p = {'k':kind, 'es':[{'id','seq'}..]} (memoised:
+        the Interest is signed with DigestSha256, so equal packets have equal wires anyway)."""
+        key = (p['k'], tuple((e['id'], e['seq']) for e in p.get('es', [])))
+        w = self.wires.get(key)
+        if w is None:
+            w = self.wires[key] = self._sync_interest(p)
+        return w
+
+    def _sync_interest(self, p):
+        base = self.base
+        enc_sv = self.encode_sv_component
+        signer = sec.DigestSha256Signer(for_interest=True)
+        k = p['k']
+        es = [(e['id'], e['seq']) for e in p.get('es', [])]
+        if k == 'sv':
+            name = base + [enc_sv(es)]
+        elif k == 'empty':
+            # a state-vector element with no entry at all
+            name = base + [enc_sv([])]
+        elif k == 'garbage':
+            # component of the right type whose value is a truncated TLV (announced length overruns)
+            good = enc_sv(es or [('n1', 1)])
+            name = base + [bytes([SV_TYPE, len(good) - 3]) + good[2:-1]]
+        elif k == 'nowrapper':
+            # the vector is carried in a generic component, not in a 0xc9 element
+            name = base + [enc.Component.from_bytes(enc_sv(es or [('n1', 1)]))]
+        elif k == 'badname':
+            # one component too many between the group prefix and the vector
+            name = base + [enc.Component.from_str('x'), enc_sv(es or [('n1', 1)])]
+        elif k == 'unsigned':
+            # no signature, hence no parameters digest: the name is one component short
+            name = base + [enc_sv(es or [('n1', 1)])]
+            return bytes(enc.make_interest(name, enc.InterestParam()))
+        else:
+            raise ValueError(k)
+        return bytes(enc.make_interest(name, enc.InterestParam(), b'', signer))
+
+    def decode_emitted(self, wire):
+        """Decoded state vector of a sync Interest of this group found on the face: {node: seq} (zero
+        entries kept); None for a packet of another group."""
+        name, _, _, _ = enc.parse_interest(wire)
+        base = self.base
+        if [bytes(c) for c in name[:len(base)]] != [bytes(c) for c in base]:
+            return None
+        comp = [c for c in name[len(base):] if enc.Component.get_type(c) == SV_TYPE]
+        if len(comp) != 1:
+            return {'?': 'no state vector component'}
+        sv = StateVecWrapper.parse(comp[0]).val
+        out = {}
+        for e in (sv.entries if sv is not None else []):
+            out[self.node_of(e.node_id)] = e.seq_no
+        return out
 
 
-_BY_BYTES = {}
-
-
-def node_of(name_or_bytes):
-    """spec node id of a real node name (FormalName or its TLV bytes)"""
-    if not _BY_BYTES:
-        for n in NODE_NAMES:
-            _BY_BYTES[bytes(enc.Name.to_bytes(node_name(n)))] = n
-    b = bytes(name_or_bytes) if isinstance(name_or_bytes, (bytes, bytearray, memoryview)) \
-        else bytes(enc.Name.to_bytes(name_or_bytes))
-    return _BY_BYTES.get(b, '?' + b.hex())
-
-
-def encode_sv_component(entries):
-    """entries: list of (id|NOID, seq|NOSEQ) -> name component bytes (TLV 0xc9)."""
-    w = StateVecWrapper()
-    w.val = StateVec()
-    w.val.entries = []
-    for nid, seq in entries:
-        e = StateVecEntry()
-        if nid == ROOTID:
-            e.node_id = []
-        elif nid != NOID:
-            e.node_id = node_name(nid)
-        if seq != NOSEQ:
-            e.seq_no = seq
-        w.val.entries.append(e)
-    return bytes(w.encode())
-
-
-_WIRES = {}
-
-
-def sync_interest(p):
-    """Wire of a signed sync Interest for spec packet p = {'k':kind, 'es':[{'id','seq'}..]} (memoised:
-    the Interest is signed with DigestSha256, so equal packets have equal wires anyway)."""
-    key = (p['k'], tuple((e['id'], e['seq']) for e in p.get('es', [])))
-    w = _WIRES.get(key)
-    if w is None:
-        w = _WIRES[key] = _sync_interest(p)
-    return w
-
-
-def _sync_interest(p):
-    base = enc.Name.normalize(GROUP)
-    signer = sec.DigestSha256Signer(for_interest=True)
-    k = p['k']
-    es = [(e['id'], e['seq']) for e in p.get('es', [])]
-    if k == 'sv':
-        name = base + [encode_sv_component(es)]
-    elif k == 'empty':
-        # a state-vector element with no entry at all
-        name = base + [encode_sv_component([])]
-    elif k == 'garbage':
-        # component of the right type whose value is a truncated TLV (announced length overruns)
-        good = encode_sv_component(es or [('n1', 1)])
-        name = base + [bytes([SV_TYPE, len(good) - 3]) + good[2:-1]]
-    elif k == 'nowrapper':
-        # the vector is carried in a generic component, not in a 0xc9 element
-        name = base + [enc.Component.from_bytes(encode_sv_component(es or [('n1', 1)]))]
-    elif k == 'badname':
-        # one component too many between the group prefix and the vector
-        name = base + [enc.Component.from_str('x'), encode_sv_component(es or [('n1', 1)])]
-    elif k == 'unsigned':
-        # no signature, hence no parameters digest: the name is one component short
-        name = base + [encode_sv_component(es or [('n1', 1)])]
-        return bytes(enc.make_interest(name, enc.InterestParam()))
-    else:
-        raise ValueError(k)
-    return bytes(enc.make_interest(name, enc.InterestParam(), b'', signer))
-
-
-def decode_emitted(wire):
-    """Decoded state vector of a sync Interest found on the face: {node: seq} (zero entries kept)."""
-    name, _, _, _ = enc.parse_interest(wire)
-    base = enc.Name.normalize(GROUP)
-    if name[:len(base)] != base:
-        return {'?': 'not under the group prefix'}
-    comp = [c for c in name[len(base):] if enc.Component.get_type(c) == SV_TYPE]
-    if len(comp) != 1:
-        return {'?': 'no state vector component'}
-    sv = StateVecWrapper.parse(comp[0]).val
-    out = {}
-    for e in (sv.entries if sv is not None else []):
-        out[node_of(e.node_id)] = e.seq_no
-    return out
+WORLD = World(GROUP, NODE_NAMES)
+# a second sync group in the same process: other prefix, other own name, the same peers
+SIBLING = World('/grp2', dict(NODE_NAMES, self=[b'\x08\x03sib']))
+QUIET_TICKS = 1 << 20      # intervals of an instance whose timers must never fire during a scenario
+QUIET_TIMER = 64           # what such an instance reports as time left (the open spec does not care)
 
 
 class Scenario:
-    def __init__(self, nodes, init_seq=0, sup_ticks=2, sync_ticks=10, rstep=32768, j0=0):
+    def __init__(self, nodes, init_seq=0, sup_ticks=2, sync_ticks=10, rstep=32768, j0=0, world=None, host=None,
+                 quiet=False):
         """nodes: list of node ids, nodes[0] is this node. sup_ticks/sync_ticks: the configured
-        suppression / periodic intervals in ticks. rstep: randbits value per jitter unit."""
+        suppression / periodic intervals in ticks. rstep: randbits value per jitter unit.
+        host: another Scenario whose session, application and face this instance shares (two SvsInst
+        alive in one process); quiet: intervals so long that no timer of this instance ever fires."""
         self.nodes = list(nodes)
         self.me = nodes[0]
+        self.world = world or WORLD
+        self.host = host
+        self.quiet = quiet
+        if quiet:
+            sup_ticks = sync_ticks = QUIET_TICKS
         self.rstep = rstep
+        self.shared = host.shared if host else {'r': 0}
         self.r = j0 * rstep
         self.sup_ticks, self.sync_ticks = sup_ticks, sync_ticks
         self.missing_calls = 0
         self.react = 0
         self.published = False
         self.seen = 0
-        self.sess = Session()
-        self.sess.__enter__()
-        self._randbits = secrets.randbits
-        secrets.randbits = lambda n: self.r
+        if host is None:
+            self.sess = Session()
+            self.sess.__enter__()
+            self._randbits = secrets.randbits
+            secrets.randbits = lambda n: self.shared['r']
+        else:
+            self.sess = host.sess
+            self.seen = len(host.face.out)
         try:
-            self.app, self.face = new_app('v2')
-            self.inst = SvsInst(GROUP, node_name(self.me), self._on_missing,
+            if host is None:
+                self.app, self.face = new_app('v2')
+            else:
+                self.app, self.face = host.app, host.face
+            self.inst = SvsInst(self.world.group, self.world.node_name(self.me), self._on_missing,
                                 sec.DigestSha256Signer(for_interest=True), appv2.pass_all,
                                 sync_interval=sync_ticks * U, suppression_interval=sup_ticks * U,
                                 last_used_seq_num=init_seq)
             self.inst.start(self.app)
-            self.sess.loop.settle()
+            self.sess.loop.settle(timers_now=host is None)
             # the instance announces itself at start; C18 says nothing about that
             self.start_out = self._take_out()
             self.missing_calls = 0
@@ -181,30 +203,43 @@ class Scenario:
             inst.new_data()
             self.published = True
 
+    @property
+    def r(self):
+        return self.shared['r']
+
+    @r.setter
+    def r(self, v):
+        self.shared['r'] = v
+
     def close(self):
+        """a guest only stops its instance; the host (close it last) ends the session"""
         try:
             try:
                 self.inst.stop()
             except Exception:
                 pass
-            self.sess.__exit__(None, None, None)
+            if self.host is None:
+                self.sess.__exit__(None, None, None)
         finally:
-            secrets.randbits = self._randbits
+            if self.host is None:
+                secrets.randbits = self._randbits
 
     # ---- observation
     def _take_out(self):
-        out = [decode_emitted(w) for w in self.face.out[self.seen:]]
+        out = [self.world.decode_emitted(w) for w in self.face.out[self.seen:]]
         self.seen = len(self.face.out)
-        return out
+        return [v for v in out if v is not None]        # Interests of the other group are not ours
 
     def local(self):
         d = {n: 0 for n in self.nodes}
         for k, v in self.inst.local_sv.items():
-            n = node_of(k)
+            n = self.world.node_of(k)
             d[n] = v
         return d
 
     def timer(self):
+        if self.quiet:
+            return QUIET_TIMER
         # the instance computes next_sync_timing from time.time() (patched to the virtual clock)
         x = (self.inst.next_sync_timing - time.time()) / U
         r = round(x)
@@ -233,12 +268,12 @@ class Scenario:
         self.r = j * self.rstep
         self.react, self.published = react, False
         try:
-            exc = deliver(self.sess, self.face, sync_interest(p), timers_now=False)
+            exc = deliver(self.sess, self.face, self.world.sync_interest(p), timers_now=False)
         finally:
             self.react = 0
         if exc is not None:
             raise MachineryError('receive callback raised %r' % exc)
-        if self.published:
+        if self.published and not self.quiet:
             # as in publish(): whatever is due now was scheduled by the publication itself
             self.sess.loop.settle(timers_now=True)
         return self.post()
@@ -249,8 +284,10 @@ class Scenario:
             self.inst.new_data()
         self.sess.loop.settle(timers_now=False)
         # the expiry that was pending has been superseded by the publication; whatever is due
-        # now was scheduled by the publication itself
-        self.sess.loop.settle(timers_now=True)
+        # now was scheduled by the publication itself (a quiet instance must not run the timers
+        # of the instance it lives next to)
+        if not self.quiet:
+            self.sess.loop.settle(timers_now=True)
         return self.post()
 
     def fire(self, j=0):
